@@ -18,6 +18,7 @@ import (
 	"go/token"
 	"os"
 	"path/filepath"
+	"regexp"
 	"strings"
 )
 
@@ -277,6 +278,7 @@ func main() {
 		out.WriteString("]\n\n")
 	}
 	emitShutdownSites(&out, repo, files)
+	emitShutdownEffects(&out, repo, files)
 	out.WriteString("end CV.C17.Gen\n")
 	os.Stdout.Write(out.Bytes())
 }
@@ -449,6 +451,184 @@ func emitShutdownSites(out *bytes.Buffer, repo string, files map[string]*ast.Fil
 			sep = ""
 		}
 		fmt.Fprintf(out, "  (%s, [%s], %v, %v)%s\n", leanStr(s.fn), strings.Join(ps, ", "), s.flagged, s.rset, sep)
+	}
+	out.WriteString("]\n\n")
+}
+
+// ---- semantic structure: what Cluster.Shutdown does, under which guards
+//
+// The tracked effects of `(*Cluster).Shutdown` in source order, each with the ATOMS of the conditions enclosing it
+// (conjunctions are split; an else arm contributes `!(<cond>)`; `err` is qualified by the call whose result it holds:
+// `err@Peers == nil`). Tracked: the single read of `c.readyB, c.removed` ("read"), `removed = true` ("setRemoved"),
+// `c.consensus.RmPeer` ("rmSelf"), `con.Shutdown` / `c.consensus.Shutdown` ("consShutdown"), `c.consensus.Clean`
+// ("clean"), `close(c.doneCh)` ("done"), every `return` ("return"). The Lean model (`Model/C17Shutdown.lean`)
+// INTERPRETS this list; an atom it does not know is a failed obligation.
+
+type effRec struct {
+	eff  string
+	path []string
+}
+
+type effWalker struct{ effs []effRec }
+
+var errWord = regexp.MustCompile(`\berr\b`)
+
+func splitAnd(e ast.Expr, lastErr string) []string {
+	if p, ok := e.(*ast.ParenExpr); ok {
+		return splitAnd(p.X, lastErr)
+	}
+	if b, ok := e.(*ast.BinaryExpr); ok && b.Op == token.LAND {
+		return append(splitAnd(b.X, lastErr), splitAnd(b.Y, lastErr)...)
+	}
+	c := src(e)
+	if lastErr != "" {
+		c = errWord.ReplaceAllString(c, "err@"+lastErr)
+	}
+	return []string{c}
+}
+
+// errSource: the statement assigns `err` from a call: the callee's name
+func errSource(s ast.Stmt) string {
+	a, ok := s.(*ast.AssignStmt)
+	if !ok || len(a.Rhs) != 1 {
+		return ""
+	}
+	call, ok := a.Rhs[0].(*ast.CallExpr)
+	if !ok {
+		return ""
+	}
+	for _, l := range a.Lhs {
+		if id, ok := l.(*ast.Ident); ok && id.Name == "err" {
+			if se, ok := call.Fun.(*ast.SelectorExpr); ok {
+				return se.Sel.Name
+			}
+			return src(call.Fun)
+		}
+	}
+	return ""
+}
+
+func (w *effWalker) simple(s ast.Stmt, path []string) {
+	add := func(e string) { w.effs = append(w.effs, effRec{e, append([]string{}, path...)}) }
+	if a, ok := s.(*ast.AssignStmt); ok {
+		l, r := make([]string, len(a.Lhs)), make([]string, len(a.Rhs))
+		for i, x := range a.Lhs {
+			l[i] = src(x)
+		}
+		for i, x := range a.Rhs {
+			r[i] = src(x)
+		}
+		ls, rs := strings.Join(l, ","), strings.Join(r, ",")
+		if ls == "ready,removed" && rs == "c.readyB,c.removed" {
+			add("read")
+		} else if ls == "removed" && rs == "true" {
+			add("setRemoved")
+		} else if ls == "removed" || ls == "ready" || strings.HasPrefix(ls, "ready,") || strings.HasSuffix(ls, ",removed") {
+			add("unknown:" + ls + "=" + rs) // the locals are written in a way the model does not know
+		}
+	}
+	if _, ok := s.(*ast.ReturnStmt); ok {
+		add("return")
+		return
+	}
+	ast.Inspect(s, func(x ast.Node) bool {
+		if _, ok := x.(*ast.FuncLit); ok {
+			return false
+		}
+		c, ok := x.(*ast.CallExpr)
+		if !ok {
+			return true
+		}
+		switch f := src(c.Fun); {
+		case strings.HasSuffix(f, ".RmPeer"):
+			add("rmSelf")
+		case f == "con.Shutdown" || f == "c.consensus.Shutdown":
+			add("consShutdown")
+		case strings.HasSuffix(f, ".Clean"):
+			add("clean")
+		case f == "close" && len(c.Args) == 1 && src(c.Args[0]) == "c.doneCh":
+			add("done")
+		}
+		return true
+	})
+}
+
+func (w *effWalker) stmts(l []ast.Stmt, path []string, lastErr string) {
+	for _, s := range l {
+		lastErr = w.stmt(s, path, lastErr)
+	}
+}
+
+func (w *effWalker) stmt(s ast.Stmt, path []string, lastErr string) string {
+	switch x := s.(type) {
+	case *ast.BlockStmt:
+		w.stmts(x.List, path, lastErr)
+	case *ast.IfStmt:
+		inner := lastErr
+		if x.Init != nil {
+			inner = w.stmt(x.Init, path, lastErr)
+		}
+		atoms := splitAnd(x.Cond, inner)
+		w.stmts(x.Body.List, append(append([]string{}, path...), atoms...), inner)
+		if x.Else != nil {
+			neg := "!(" + strings.Join(atoms, " && ") + ")"
+			w.stmt(x.Else, append(append([]string{}, path...), neg), inner)
+		}
+	case *ast.ForStmt:
+		w.stmts(x.Body.List, append(append([]string{}, path...), "loop"), lastErr)
+	case *ast.RangeStmt:
+		w.stmts(x.Body.List, append(append([]string{}, path...), "loop"), lastErr)
+	case *ast.SelectStmt, *ast.SwitchStmt, *ast.TypeSwitchStmt, *ast.GoStmt, *ast.DeferStmt, *ast.LabeledStmt:
+		before := len(w.effs)
+		w.simple(s, path)
+		if len(w.effs) > before {
+			// a tracked effect inside a construct the translator does not open
+			w.effs = append(w.effs, effRec{"unknown:construct", append([]string{}, path...)})
+		}
+	default:
+		w.simple(s, path)
+		if e := errSource(s); e != "" {
+			return e
+		}
+	}
+	return lastErr
+}
+
+func emitShutdownEffects(out *bytes.Buffer, repo string, files map[string]*ast.File) {
+	f := files["cluster.go"]
+	if f == nil {
+		var err error
+		f, err = parser.ParseFile(fset, filepath.Join(repo, "cluster.go"), nil, 0)
+		if err != nil {
+			fmt.Fprintln(os.Stderr, err)
+			os.Exit(1)
+		}
+	}
+	w := &effWalker{}
+	found := false
+	for _, d := range f.Decls {
+		fd, ok := d.(*ast.FuncDecl)
+		if !ok || fd.Body == nil || fd.Name.Name != "Shutdown" || recvName(fd) != "Cluster" {
+			continue
+		}
+		found = true
+		w.stmts(fd.Body.List, nil, "")
+	}
+	if !found {
+		w.effs = append(w.effs, effRec{"unknown:missing", nil})
+	}
+	out.WriteString("/-- cluster.go `(*Cluster).Shutdown`: tracked effects in source order with the atoms of their enclosing conditions -/\n")
+	out.WriteString("def shutdownEffects : List (String × List String) := [\n")
+	for i, e := range w.effs {
+		ps := make([]string, len(e.path))
+		for k, p := range e.path {
+			ps[k] = leanStr(p)
+		}
+		sep := ","
+		if i == len(w.effs)-1 {
+			sep = ""
+		}
+		fmt.Fprintf(out, "  (%s, [%s])%s\n", leanStr(e.eff), strings.Join(ps, ", "), sep)
 	}
 	out.WriteString("]\n\n")
 }
